@@ -166,7 +166,9 @@ pub mod c_api {
     pub unsafe extern "C" fn xeh_bitstr_bytes(val: *const Xcell) -> *const u8 {
         match &*val {
             Xcell::Bitstr(s) => 
-                if let Some(bytes) = s.bytestr() {
+                // only a value that sits on byte boundaries of its own buffer can be lent out:
+                // bytestr() would hand back a temporary copy that is gone on return
+                if let Some(bytes) = s.slice() {
                     bytes.as_ptr()
                 } else {
                     null()
